@@ -534,6 +534,26 @@ class ACCLoopDirective(ACCRegionDirective):
                 f"in the Schedule or the routine must contain an "
                 f"ACCRoutineDirective.")
 
+        # If there is a collapse clause, there must be as many tightly
+        # nested loops as the collapse value (the tree may have changed
+        # since the directive was created).
+        if self._collapse:
+            # pylint: disable=import-outside-toplevel
+            from psyclone.psyir.nodes.loop import Loop
+            cursor = self.dir_body.children[0] if self.dir_body.children \
+                else None
+            for depth in range(self._collapse):
+                if (not isinstance(cursor, Loop) or
+                        len(cursor.parent.children) != 1):
+                    raise GenerationError(
+                        f"ACCLoopDirective must have as many immediately "
+                        f"nested loops as the collapse clause specifies but "
+                        f"'{self}' has a collapse={self._collapse} and the "
+                        f"nested body at depth {depth} cannot be "
+                        f"collapsed.")
+                cursor = cursor.loop_body.children[0] if \
+                    cursor.loop_body.children else None
+
         super().validate_global_constraints()
 
     def gen_code(self, parent):
